@@ -116,14 +116,22 @@ impl<F: Read + Seek> BufRead for Stream<F> {
             let stream_id = self.stream_id;
             let offset = self.buf_offset_from_start;
             let minialloc = self.minialloc()?;
-            self.buffer.refill_with(remaining, |buf| {
+            let result = self.buffer.refill_with(remaining, |buf| {
                 read_data_from_stream(
                     &mut minialloc.write().unwrap(),
                     stream_id,
                     offset,
                     buf,
                 )
-            })?;
+            });
+            if let Err(err) = result {
+                // The window has already moved to the current position, but
+                // the buffer still claims to hold the previous window's (or
+                // partially overwritten) bytes; forget them, so that a retry
+                // reads from the file again instead of returning them.
+                self.buffer.clear();
+                return Err(err);
+            }
         }
         Ok(self.buffer.remaining_slice())
     }
